@@ -34,7 +34,8 @@ COMPONENTS = ["laostar", "lrtdp", "astar", "bfs", "td", "rmax", "bpi", "ga", "se
               "mdp_rollout", "pomdp_rollout"]
 
 KINDS = ["KPrivate", "KParamDefaultGlobal", "KGlobalIfSeedNone", "KAuditedOrderFree",
-         "KGlobal", "KGlobalIfSeedFalsy", "KUnseeded", "KHashOrder", "KHash", "KHashDerivedSeed"]
+         "KGlobal", "KGlobalIfSeedFalsy", "KUnseeded", "KHashOrder", "KHash", "KHashDerivedSeed",
+         "KPersistentAcrossCalls"]
 
 # file -> (default components, {scope-prefix: components})
 # A scope is "Class.method" / "function" (nested functions and lambdas belong to their enclosing scope).
@@ -70,6 +71,15 @@ AUDITED_ORDER_FREE = {
         "loop body only writes q[s] for the loop variable s; the returned dict's content is order independent "
         "(DESIGN C10 double_q_keyset_indep); trusted audit",
 }
+
+# generator constructions outside the per-call entry point that are BY DESIGN the object's state
+AUDITED_STATEFUL = {
+    ("msdm/core/distributions/distributions.py", "ImplicitDistribution._rng", "random.Random(self._seed)"):
+        "an ImplicitDistribution IS a seeded generator: sample() must advance it (msdm's own tests draw repeatedly from one "
+        "object); reproducibility is per freshly constructed object, like the rng= argument of a roll-out; trusted audit",
+}
+PER_OBJECT_SCOPES = {"__init__", "__post_init__", "__new__", "__init_subclass__"}
+CACHING_DECORATORS = {"cached_property", "lru_cache", "cache", "method_cache"}
 
 DRAW_METHODS = {"random", "randint", "randrange", "choice", "choices", "shuffle", "sample", "uniform", "gauss",
                 "normalvariate", "lognormvariate", "expovariate", "betavariate", "gammavariate", "triangular",
@@ -361,6 +371,23 @@ class FileScan:
             return "KPrivate"
         raise Unclassified("%s:%d: generator constructed from `%s`: seed expression not recognised" % (self.rel, call.lineno, src(a)))
 
+    def persistent_scope(self, node):
+        """where a generator construction outlives one call: __init__-like methods, cached properties/functions,
+        class bodies and module level; None when it sits in an ordinary (per-call) function"""
+        f = self.func_of(node)
+        if f is None:
+            return "module/class level"
+        while f is not None:
+            if not isinstance(f, ast.Lambda):
+                if f.name in PER_OBJECT_SCOPES:
+                    return f.name
+                for d in f.decorator_list:
+                    dd = dotted(d.func if isinstance(d, ast.Call) else d) or ""
+                    if dd.split(".")[-1] in CACHING_DECORATORS:
+                        return "@%s %s" % (dd.split(".")[-1], f.name)
+            f = self.func_of(f)
+        return None
+
     def scan(self):
         for n in ast.walk(self.tree):
             if isinstance(n, ast.Call):
@@ -434,7 +461,14 @@ class FileScan:
         if self.is_construction(n):
             self.claim(f)
             self.claimed.add(n)
-            return self.emit(n, self.seed_kind_of_construction(n))
+            kind = self.seed_kind_of_construction(n)
+            where = self.persistent_scope(n)
+            if where and kind == "KPrivate":
+                key = (self.rel, self.scope(n), src(n))
+                if key in AUDITED_STATEFUL:
+                    return self.emit(n, "KPrivate", src(n) + "   [object-level generator, audited: %s]" % AUDITED_STATEFUL[key][:50])
+                return self.emit(n, "KPersistentAcrossCalls", src(n) + "   [constructed in %s: state carries over between calls on the same object]" % where)
+            return self.emit(n, kind)
         # stdlib random module
         if len(parts) == 2 and parts[0] in self.mod_random:
             self.claim(f)
